@@ -5,6 +5,7 @@ Property theorems only; the model is `DeapModel/Core/Fitness.lean`.
 import DeapModel.Core.Fitness
 import DeapModel.Core.FitClass
 import DeapModel.Lemmas.C01Class
+import DeapModel.Lemmas.C01Gen
 import Mathlib.Order.Defs.LinearOrder
 import Mathlib.Algebra.Order.Field.Basic
 import Mathlib.Data.List.Lex
@@ -804,7 +805,36 @@ theorem r64_div_mul_ne : ((⟨1⟩ : R64) / ⟨49⟩) * ⟨49⟩ ≠ ⟨1⟩ := 
 
 end CloneRounded
 
+/-! ### The sliced constrained dominance (repair F38) -/
+
+section ConstrainedSlice
+variable {α : Type} [LT α] [LE α] [DecidableEq α] [DecidableLT α] [DecidableLE α]
+
+/-- on every objective (`obj = slice(None)`: each tuple's own full index range) the sliced constrained dominance is
+the unsliced one the earlier theorems speak about -/
+theorem cdominatesObj_all (a b : CFit α) :
+    cdominatesObj a b (List.range a.wvalues.length) (List.range b.wvalues.length) = cdominates a b := by
+  unfold cdominatesObj cdominates dominates
+  simp only [CFit.base, Gen01L.pySlice_range]
+
+/-- a violating fitness never dominates and a non-violating one dominates every violating one, on every slice;
+between two non-violating ones it is the base class's sliced dominance -/
+theorem cdominatesObj_cases (a b : CFit α) (ia ib : List Nat) :
+    (violates a = true → cdominatesObj a b ia ib = false) ∧
+    (violates a = false → violates b = true → cdominatesObj a b ia ib = true) ∧
+    (violates a = false → violates b = false → cdominatesObj a b ia ib = dominates a.base b.base ia ib) := by
+  refine ⟨?_, ?_, ?_⟩
+  · intro ha; simp [cdominatesObj, ha]
+  · intro ha hb; simp [cdominatesObj, ha, hb]
+  · intro ha hb; simp [cdominatesObj, ha, hb]
+
+end ConstrainedSlice
+
 /-! ### Non-vacuity: concrete instances of the hypotheses above -/
+
+example : violates (⟨[], some [1]⟩ : CFit Int) = true ∧ violates (⟨[1, 5], some [1]⟩ : CFit Int) = false ∧
+    cdominatesObj (⟨[1, 5], none⟩ : CFit Int) ⟨[2, 4], none⟩ [1] [1] = true ∧
+    cdominatesObj (⟨[1, 5], none⟩ : CFit Int) ⟨[], some [1]⟩ [1] [] = true := by decide
 
 example : violates (⟨[], some [1, 0]⟩ : CFit Int) = true ∧ violates (⟨[], some [1, -1]⟩ : CFit Int) = false ∧
     violates (⟨[3, -2], none⟩ : CFit Int) = false := by decide
